@@ -199,3 +199,8 @@ func VerifOverride(name string, fn any) {}
 
 // VerifConcurrentMode reports whether the harness runs under the concurrency-mode analysis.
 func VerifConcurrentMode() bool { return false }
+
+// VerifPathCount counts per thread path in the executor (always 0 natively); VerifCut ends a thread
+// path that exceeds a harness bound (the executor then checks that no interleaving gets there).
+func VerifPathCount(name string) int { return 0 }
+func VerifCut()                      {}
